@@ -56,6 +56,8 @@ u8_enum!(FinScript {
     CollectThenFinalizeAgainG = 15,
     CollectThenAlloc = 16,
     NewCyclicIntoCell1 = 17,
+    TakeCell1ThenAlloc = 18,
+    NewCyclicSaveWeakPanics = 19,
 });
 
 u8_enum!(DropScript {
@@ -66,6 +68,8 @@ u8_enum!(DropScript {
     FinalizeAgainG = 4,
     CollectThenTryUnwrapG = 5,
     CollectThenFinalizeAgainG = 6,
+    TakeCell1ThenAlloc = 7,
+    NewCyclicSaveWeakPanics = 8,
 });
 
 u8_enum!(Closure {
@@ -89,6 +93,7 @@ u8_enum!(ActionKind {
     TryUnwrapG = 7,
     CollectThenTryUnwrapG = 8,
     FinalizeAgainG = 9,
+    NewCyclicSaveWeakPanics = 10,
 });
 
 // ------------------------------------------------------------------------------------------------
@@ -575,6 +580,8 @@ pub struct Ctx {
     pub violations: RefCell<Vec<Violation>>,
     pub fault_at: Cell<u16>,
     pub fault_fired: Cell<bool>,
+    /// a script caught the panic of a new_cyclic closure it had started from inside a callback
+    pub closure_panic_caught: Cell<bool>,
     pub cp_count: Cell<u16>,
     pub cp_kinds: RefCell<Vec<CpKind>>,
     pub callbacks: Cell<u32>,
@@ -647,7 +654,7 @@ pub fn viol(prop: &'static str, pred: &'static str, msg: String) {
     if let Some(c) = try_ctx() {
         let _p = alloc::pause();
         // Whatever breaks after a callback panic was caught (or while one unwinds) is a containment failure
-        let after_fault = c.fault_fired.get() || c.model.try_borrow().map_or(false, |m| m.faults > 0);
+        let after_fault = c.fault_fired.get() || c.closure_panic_caught.get() || c.model.try_borrow().map_or(false, |m| m.faults > 0);
         if after_fault && prop != "MACHINERY" && prop != "C07" {
             // The violation keeps its own property (so that e.g. the C05 check sees a second finalization after a
             // panicking finalizer); the C07 check claims every violation carrying this prefix.
@@ -687,6 +694,7 @@ impl Ctx {
             violations: RefCell::new(Vec::new()),
             fault_at: Cell::new(NO_FAULT),
             fault_fired: Cell::new(false),
+            closure_panic_caught: Cell::new(false),
             cp_count: Cell::new(0),
             cp_kinds: RefCell::new(Vec::new()),
             callbacks: Cell::new(0),
@@ -1799,6 +1807,11 @@ fn run_fin_script(node: &Node) {
                 }
             }
         },
+        FinScript::TakeCell1ThenAlloc => script_take_cell1_then_alloc(node, true),
+        FinScript::NewCyclicSaveWeakPanics => {
+            #[cfg(feature = "weak")]
+            script_new_cyclic_save_weak_panics();
+        },
         FinScript::DropG => {
             let taken = c.g.borrow_mut().take();
             if let Some(cc) = taken {
@@ -1848,6 +1861,37 @@ fn run_drop_script(node: &Node) {
             do_collect();
             script_finalize_again_g("destructor (after a collect_cycles() call)");
         },
+        DropScript::TakeCell1ThenAlloc => script_take_cell1_then_alloc(node, false),
+        DropScript::NewCyclicSaveWeakPanics => {
+            #[cfg(feature = "weak")]
+            script_new_cyclic_save_weak_panics();
+        },
+    }
+}
+
+/// Releases the Cc in traced cell 1 (its target, if other Ccs to it exist, becomes a buffered object), creates two
+/// garbage self-cycles (each is buffered when its handle is dropped) and then one more object: with a
+/// buffered-objects threshold of 1 or 2 configured, that last creation is an allocation whose *buffered* trigger is
+/// due - from inside a callback of a running collection it must still be a no-op.
+fn script_take_cell1_then_alloc(node: &Node, in_finalizer: bool) {
+    let c = ctx();
+    let id = node.id as usize;
+    let expect = if in_finalizer { Some(true) } else { None };
+    let taken = node.cells[1].try_borrow_mut().ok().and_then(|mut cell| cell.take());
+    if let Some(child) = taken {
+        c.model.borrow_mut().objs[id].cells[1] = None;
+        api_drop(child);
+    }
+    for _ in 0..2 {
+        if let Some((nid, cc)) = make_node(expect) {
+            let cl = cc.clone();
+            *cc.cells[0].borrow_mut() = Some(cl);
+            c.model.borrow_mut().objs[nid as usize].cells[0] = Some(nid);
+            api_drop(cc);
+        }
+    }
+    if let Some((_nid, cc)) = make_node(expect) {
+        api_drop(cc);
     }
 }
 
